@@ -10,7 +10,7 @@ P="$V/benign/$id/patch.diff"
 R=$(mktemp -d "${TMPDIR:-/tmp}/benignrepo.XXXXXX"); trap 'rm -rf "$R"' EXIT
 rsync -a --exclude .git /repo/ "$R"/
 ( cd "$R" && git apply "$P" ) || { echo "$id: patch does not apply"; exit 2; }
-out="$V/benign/$id/last_run.txt"; : > "$out"
+out="$V/benign/$id/${OUTNAME:-last_run.txt}"; : > "$out"
 if ( cd "$R" && GOFLAGS=-mod=mod GOPROXY=off go build ./... && GOFLAGS=-mod=mod GOPROXY=off go test -vet=off -count=1 ./... >"$R/.suite.log" 2>&1 ); then echo "suite: pass" | tee -a "$out"; else echo "suite: FAIL" | tee -a "$out"; fi
 for p in ${PROPS:-C01 C09 C10 C11 C12 C13 C14 C15 C16 C17 C18 C19 C20}; do
   res=$(cd "$V" && VERIF_REPO="$R" ./check $p quick 2>&1); rc=$?
